@@ -653,6 +653,10 @@ def replay_dbc_tv(d):
         except KeyError:
             problems.append(f"no message with id {impl.fields['id']} on bus {bus}")
             continue
+        if bool(msg.is_extended_frame) != (impl.fields["id"] > 0x7FF):
+            problems.append(f"message {msg.name}: id {impl.fields['id']} is marked "
+                            f"{'extended (29-bit)' if msg.is_extended_frame else 'standard (11-bit)'} in the DBC")
+            continue
         if msg.name != impl.name or msg.length != (bits + 7) // 8 or len(msg.signals) != len(lay):
             problems.append(f"message {msg.name}: dlc {msg.length}, {len(msg.signals)} signals; expected {impl.name}, "
                             f"{(bits + 7) // 8}, {len(lay)}")
@@ -774,7 +778,8 @@ def replay_c14_concrete(d):
 
     from .checks.gating_checks import real_plugin_run
 
-    p, before, after = real_plugin_run(d["generator"], d["schema_text"], d["fits"], warmup=bool(d.get("warmup")))
+    p, before, after = real_plugin_run(d["generator"], d["schema_text"], d["fits"], warmup=bool(d.get("warmup")),
+                                       warmup_text=d.get("warmup_text"))
     try:
         st = json.loads((p.stdout.strip().splitlines() or ["{}"])[-1])
     except Exception:
